@@ -17,6 +17,7 @@ type PythonIdentListener struct {
 
 var currentCodeFile *core_domain.CodeContainer
 var currentDataStruct *core_domain.CodeDataStruct
+var enclosingDataStructs []*core_domain.CodeDataStruct
 var debug = false
 var output io.Writer
 var hasEnterMember = false
@@ -24,6 +25,8 @@ var hasEnterMember = false
 func NewPythonIdentListener(fileName string) *PythonIdentListener {
 	currentCodeFile = &core_domain.CodeContainer{}
 	currentCodeFile.FullName = fileName
+	currentDataStruct = nil
+	enclosingDataStructs = nil
 	output = os.Stdout
 
 	return &PythonIdentListener{}
@@ -85,13 +88,20 @@ func (s *PythonIdentListener) EnterClassdef(ctx *parser.ClassdefContext) {
 		dataStruct.Annotations = decorators
 	}
 
+	enclosingDataStructs = append(enclosingDataStructs, currentDataStruct)
 	currentDataStruct = dataStruct
 }
 
 func (s *PythonIdentListener) ExitClassdef(ctx *parser.ClassdefContext) {
 	hasEnterMember = false
-	currentCodeFile.DataStructures = append(currentCodeFile.DataStructures, *currentDataStruct)
+	if currentDataStruct != nil {
+		currentCodeFile.DataStructures = append(currentCodeFile.DataStructures, *currentDataStruct)
+	}
 	currentDataStruct = nil
+	if n := len(enclosingDataStructs); n > 0 {
+		currentDataStruct = enclosingDataStructs[n-1]
+		enclosingDataStructs = enclosingDataStructs[:n-1]
+	}
 }
 
 func (s *PythonIdentListener) EnterFuncdef(ctx *parser.FuncdefContext) {
